@@ -120,6 +120,10 @@ func runWithFaults(w world.World, faults []world.Fault, arena, tag string) (prob
 	if ps.problem != "" {
 		return ps.problem, fired, counts
 	}
+	// the trace must stay truthful under faults: start -> one success or failure, 'already' only after a success
+	if err := world.CheckBracketing(h.Log); err != nil {
+		return "trace events: " + err.Error(), fired, counts
+	}
 	if failedAt >= 0 {
 		if run.ClosePanic == nil {
 			return fmt.Sprintf("Close returned (bundle=%v, err=%v) after Add call %d had failed: no bundle may come out of a failed build", run.Bundle != nil, run.CloseErr, failedAt), true, counts
